@@ -180,3 +180,60 @@ func (v *VerifSched) AddPeer(h core.InfoHash, peerID core.PeerID, b *bitset.BitS
 	}
 	return err
 }
+
+// ---- C20 (system half): the scheduler's own use of the announce queue
+
+// VerifState is newScheduler(...) + newState(...) on a caller-supplied announce queue, never started:
+// single events are applied synchronously from outside the package.
+type VerifState struct {
+	s  *scheduler
+	st *state
+}
+
+// NewVerifState builds an unstarted scheduler state (announcing disabled).
+func NewVerifState(config Config, ta storage.TorrentArchive, pctx core.PeerContext, clk clock.Clock,
+	aq announcequeue.Queue, netevents networkevent.Producer) (*VerifState, error) {
+
+	s, err := newScheduler(config, ta, tally.NoopScope, pctx, announceclient.Disabled(), netevents, withClock(clk))
+	if err != nil {
+		return nil, err
+	}
+	return &VerifState{s, newState(s, aq)}, nil
+}
+
+// HasControl reports whether h has a torrent control.
+func (v *VerifState) HasControl(h core.InfoHash) bool { _, ok := v.st.torrentControls[h]; return ok }
+
+// AddTorrent exposes state.addTorrent.
+func (v *VerifState) AddTorrent(namespace string, t storage.Torrent) error {
+	_, err := v.st.addTorrent(namespace, t, true)
+	return err
+}
+
+// RemoveTorrent exposes state.removeTorrent.
+func (v *VerifState) RemoveTorrent(h core.InfoHash) { v.st.removeTorrent(h, ErrTorrentRemoved) }
+
+// AnnounceTick applies an announceTickEvent.
+func (v *VerifState) AnnounceTick() { announceTickEvent{}.apply(v.st) }
+
+// AnnounceResult applies an announceResultEvent without peers.
+func (v *VerifState) AnnounceResult(h core.InfoHash) { announceResultEvent{h, nil}.apply(v.st) }
+
+// AnnounceErr applies an announceErrEvent.
+func (v *VerifState) AnnounceErr(h core.InfoHash) { announceErrEvent{h, fmt.Errorf("verif")}.apply(v.st) }
+
+// AddPending / DeletePending expose the connection state (to saturate a torrent).
+func (v *VerifState) AddPending(p core.PeerID, h core.InfoHash) error {
+	return v.st.conns.AddPending(p, h, nil)
+}
+
+// DeletePending removes a pending slot.
+func (v *VerifState) DeletePending(p core.PeerID, h core.InfoHash) { v.st.conns.DeletePending(p, h) }
+
+// Close tears the dispatchers down.
+func (v *VerifState) Close() {
+	for _, ctrl := range v.st.torrentControls {
+		ctrl.dispatcher.TearDown()
+	}
+	v.s.eventLoop.stop()
+}
